@@ -162,6 +162,15 @@ package snowflake_proxy
 //
 // ---- guarded-by declarations (C20) ----
 //@ guarded webRTCConn.dc by lock
+// traffic totals of one connection: updated by the logger's goroutine, read when the connection closes
+//@ guarded bytesSyncLogger.outbound by lock
+//@ guarded bytesSyncLogger.inbound by lock
+//@ guarded bytesSyncLogger.outEvents by lock
+//@ guarded bytesSyncLogger.inEvents by lock
+// sums of the periodic traffic summary: added to by the goroutines that close connections, reset by the timer goroutine
+//@ guarded logEventLogger.inboundSum by lock
+//@ guarded logEventLogger.outboundSum by lock
+//@ guarded logEventLogger.connectionCount by lock
 //@ guarded tokens_t.clients atomic
 //
 // ---- local addresses never leave the process (C08) ----
